@@ -38,6 +38,10 @@ def main():
                 continue        # zic itself rejects the variant: not a program
         mutants.append(('mutant%02d' % len(mutants), txt, what))
     programs += [(n, t) for (n, t, w) in mutants]
+    # a fixed one-zone program inside the documented feature set whose STDOFF has a minute remainder >= 8 modulo 15: the
+    # extended generator's deltaCode does not fit its field (known finding, C12); kept so that the finding is reported by every
+    # run and the program is checked normally once the defect is gone
+    programs.append(('offgrid8', 'Zone\tTest/OffGrid8\t0:08\t-\t+0008\n'))
     # the real 2025b release shipped in the sandbox (compact tzdata.zi), de-shrunk and with %z rewritten
     zi_info = None
     if os.path.exists('/usr/share/zoneinfo/tzdata.zi'):
